@@ -52,20 +52,23 @@ pub fn check(run: &CellRun) -> Vec<(String, String)> {
 }
 
 /// A handle handed back after an I/O fault is still cached data: for every cell that promotes a
-/// read-only hit, each call of the promotion fails in turn; whatever handle comes back must be
+/// read-only hit, fills a miss or replaces a value, each call of the operation fails in turn; whatever handle comes back must be
 /// read-only, at offset 0 and read as the whole value.
 fn promotion_fault_cases(cell: &Cell, run: &CellRun, rep: &mut Report) {
     use crate::props::c18::{plausible, FailAt};
     use std::sync::atomic::AtomicU64;
     use std::sync::{Arc, Mutex};
     let m = model(cell);
-    let promotes = matches!(cell.op, MOp::Ensure | MOp::Gou(crate::ops::Act::Promote))
+    // every cell whose operation publishes something and hands back a handle: promotion of a read-only hit, a miss
+    // filled by populate, a replacement (up to two levels deep for the latter two, to keep the quick tier quick)
+    let publishes = matches!(cell.op, MOp::Ensure | MOp::Gou(_))
         && cell.has_writer()
         && cell.checker == 0
         && cell.umask == 0o022
-        && matches!(m.first, Some(f) if f >= 1)
-        && m.published;
-    if !promotes {
+        && cell.pop == 0
+        && m.published
+        && (matches!(m.first, Some(f) if f >= 1) || cell.contents.len() <= 2);
+    if !publishes {
         return;
     }
     for (k, ev) in run.trace.iter().enumerate() {
@@ -145,8 +148,10 @@ pub fn run(_tier: Tier, shard: Shard, rep: &mut Report) {
     rep.rule = "the C13 and C14 matrices (every hit location, action, checker setting, populate outcome) x umask {000, 022, 077}: \
         F_GETFL access mode and lseek(SEEK_CUR) of every returned handle (judge and checker read the files they are given to the \
         end), bytes read to the end, st_mode of every file visible under the key name in the write cache; by-path set/put additionally with sources made by \
-        File::create (mode 0666 & !umask) under umask 000/002/022/077. For every cell that promotes a read-only hit, each call of the promotion additionally fails \
-        in turn (two errnos per call): a handle returned all the same must still be read-only, at offset 0 and whole. Non-trivial = \
+        File::create (mode 0666 & !umask) under umask 000/002/022/077. For every cell that promotes a read-only hit, fills a miss or replaces a value, each call of the operation additionally fails \
+        in turn (two errnos per call): a handle returned all the same must still be read-only, at offset 0 and whole. Plus, under concurrency \
+        (ensure / get_or_update / get racing with a deleter, an evicting writer or a replacing writer on plain, sharded and stacked \
+        front-ends, all schedules with <= 2 preemptions): every handle returned is read-only, at offset 0 and whole. Non-trivial = \
         a handle was returned after a judge or a checker consumed it."
         .into();
     rep.assumptions = vec![
@@ -183,9 +188,84 @@ pub fn run(_tier: Tier, shard: Shard, rep: &mut Report) {
         }
     }
     rep.fact("cells_total", serde_json::json!(no));
+    crate::run::reset_env();
+    concurrent(shard, rep);
+}
+
+/// Handles returned while other participants delete, evict or replace the entry: an operation that cannot
+/// re-open what it has just published (it is gone already) still returns cached data, read-only and from the start.
+fn concurrent_programs() -> Vec<(crate::sched::Program, crate::props::e1::Mode)> {
+    use crate::ops::{Act, Op, Pop};
+    use crate::props::e1::{self, api, planted, Mode};
+    use crate::sched::POp;
+    use crate::world::{Size, Val};
+    let k = e1::key1();
+    let j = e1::key2();
+    let mut out = Vec::new();
+    for front in ["plain", "sharded", "stack"] {
+        let cfg = |cap: usize| match front {
+            "plain" => e1::plain_cfg(cap),
+            "sharded" => e1::sharded_cfg(cap),
+            _ => e1::stack_cfg(cap),
+        };
+        let sd = crate::ops::shard_dir_name(0);
+        let loc = |n: &str| if front == "sharded" { format!("{}/{}", sd, n) } else { n.to_string() };
+        let v = |t: usize| e1::wval(t, 0, Size::Five);
+        let mut add = |name: &str, cap: usize, pre: Vec<crate::sched::Planted>, threads: Vec<Vec<POp>>, fire: bool| {
+            let mut pre = pre;
+            if front == "stack" {
+                pre.push(planted("@j", Val::new(21, Size::Five), false, 50));
+            }
+            out.push((
+                crate::sched::Program { name: format!("handle-{}-{}", front, name), cfg: cfg(cap), pre, threads: e1::own_handles(threads, fire), create_write_dir: true },
+                Mode::Bounded(2),
+            ));
+        };
+        add("ensure|deleter", 1 << 40, vec![], vec![vec![api(Op::Ensure(k.clone(), Pop::Value(v(0))))], vec![POp::Unlink(loc("k"))]], false);
+        add("accept-miss|deleter", 1 << 40, vec![], vec![vec![api(Op::Gou(k.clone(), Act::Accept, Pop::Value(v(0))))], vec![POp::Unlink(loc("k"))]], false);
+        add("replace|deleter", 1 << 40, vec![planted(&loc("k"), Val::new(0, Size::Five), false, 3)], vec![vec![api(Op::Gou(k.clone(), Act::Replace, Pop::Value(v(0))))], vec![POp::Unlink(loc("k"))]], false);
+        add("get|set", 1 << 40, vec![planted(&loc("k"), Val::new(0, Size::Five), false, 3)], vec![vec![api(Op::Get(k.clone()))], vec![api(Op::Set(k.clone(), v(1)))]], false);
+        add("ensure|evictor", if front == "sharded" { 2 } else { 1 }, vec![], vec![vec![api(Op::Ensure(k.clone(), Pop::Value(v(0))))], vec![api(Op::Set(j.clone(), v(1)))]], true);
+        if front == "stack" {
+            add("promote|deleter", 1 << 40, vec![], vec![vec![api(Op::Ensure(j.clone(), Pop::Value(v(0))))], vec![POp::Unlink(loc("j"))]], false);
+        }
+    }
+    out
+}
+
+fn concurrent_check(x: &crate::sched::Execution) -> Vec<(String, String)> {
+    let mut bad = Vec::new();
+    for r in &x.history {
+        if let Some(h) = &r.outcome.handle {
+            if h.accmode != libc::O_RDONLY {
+                bad.push(("handle-writable".into(), format!("t{} {} returned a handle with access mode {} (not O_RDONLY)", r.tid, r.op.label(), h.accmode)));
+            }
+            if h.offset != 0 {
+                bad.push(("handle-offset".into(), format!("t{} {} returned a handle positioned at offset {}", r.tid, r.op.label(), h.offset)));
+            }
+            if let Res::Hit(b) = &r.outcome.res {
+                if world::identify(b).is_none() {
+                    bad.push(("handle-content".into(), format!("t{} {}: reading the returned handle gave {}", r.tid, r.op.label(), world::describe_bytes(b))));
+                }
+            }
+        }
+    }
+    bad
+}
+
+fn concurrent(shard: Shard, rep: &mut Report) {
+    let progs = concurrent_programs();
+    let mut chk = |_pi: usize, x: &crate::sched::Execution| concurrent_check(x);
+    crate::props::e1::explore_all("C19", &progs, shard, rep, &|_| crate::sched::RunOpts::default(), &mut chk, 500_000);
 }
 
 pub fn replay(case: &Value, rep: &mut Report) {
+    if case.get("program").is_some() {
+        let progs: Vec<crate::sched::Program> = concurrent_programs().into_iter().map(|p| p.0).collect();
+        let mut chk = |x: &crate::sched::Execution| concurrent_check(x);
+        crate::props::e1::replay_case("C19", &progs, case, rep, &|| crate::sched::RunOpts::default(), &mut chk);
+        return;
+    }
     let cell = case.get("cell").unwrap_or(case);
     let plain = cell.get("plain_source").and_then(|v| v.as_bool()).unwrap_or(false);
     record_with(&Cell::from_json(cell), plain, rep);
